@@ -146,6 +146,12 @@ def run_for(chk, prop: str):
     import sa
     todo, results = run_variants(prop, sa.PKG_DIR)
     summary = judge(todo, results)
+    # the value-flow normal form itself: equivalent snippets get equal summaries, different ones do not
+    from . import terms_check
+    tfail = terms_check.run()
+    summary["normal_form_pairs"] = {"checked": len(terms_check.EQUIVALENT) + len(terms_check.DIFFERENT) +
+                                    len(terms_check.INLINE_EQUIVALENT), "failed": len(tfail)}
+    summary["failed"] = list(summary["failed"]) + [f"normal form: {t[:120]}" for t in tfail]
     chk.selfcheck = summary
     if summary["failed"]:
         raise AnalysisError("self-validation failed (the checker is broken for this tree): " +
